@@ -107,14 +107,18 @@ struct Sim : Instance {
     }
 };
 struct Rng : Instance {
-    string kind; int seed; std::unique_ptr<Random::Uniform> u; std::unique_ptr<Random::Gaussian> g;
-    Rng(const string& kind, int seed) : kind(kind), seed(seed) {}
+    string kind; int seed, draws; std::unique_ptr<Random::Uniform> u; std::unique_ptr<Random::Gaussian> g;
+    Rng(const string& kind, int seed, int draws) : kind(kind), seed(seed), draws(draws) {}
     string segment(int k, int nseg) override {
         if (k > 1 && (k - 1) % nseg == 0) { if (kind == "uniform") u->setSeed(seed); else g->setSeed(seed); }   // reseeding restarts the stream
         if (k == 1) { if (kind == "uniform") { u.reset(new Random::Uniform(-2.0, 5.0)); u->setSeed(seed); } else { g.reset(new Random::Gaussian(1.0, 2.0)); g->setSeed(seed); } }
         Hash h;
-        for (int i = 0; i < 50; ++i) h.add(kind == "uniform" ? u->getValue() : g->getValue());
+        // the number of values drawn per segment is a parameter: generators caching part of their output (the
+        // second normal of a pair) behave differently after odd and even numbers of draws
+        const int kk = (k - 1) % nseg;       // later segments draw one more value each, so totals of both parities occur
+        for (int i = 0; i < draws + kk; ++i) h.add(kind == "uniform" ? u->getValue() : g->getValue());
         if (kind == "uniform") { Vector v(7); u->fillArray(&v[0], 7); h.add(v); h.add((double)u->getIntValue()); }
+        else if (draws % 4 == 1) { Vector v(3); g->fillArray(&v[0], 3); h.add(v); }
         return h.words();
     }
 };
@@ -122,7 +126,7 @@ struct Rng : Instance {
 static Instance* make(const mj::Value& d) {
     const string t = d["type"].str();
     if (t == "sim") return new Sim(d["model"].str(), d["integ"].str(), d.has("reuse") ? d["reuse"].str() : string("all"));
-    return new Rng(d["dist"].str(), d["seed"].num());
+    return new Rng(d["dist"].str(), d["seed"].num(), d.has("draws") ? (int)d["draws"].num() : 50);
 }
 
 int main(int argc, char** argv) {
